@@ -95,7 +95,9 @@ def dec64Aux : Nat → Nat → List Nat → Option (List Nat)
 
 def dec64 (bs : List Nat) (cap : Nat) : Option (List Nat) :=
   match Tagged.get bs with
-  | .ok cnt n1 => dec64Aux (min cnt cap + 2) (min cnt cap) (bs.drop n1)
+  -- fuel: a block that yields values lowers `room`; a partial block announcing 0 values only consumes
+  -- input (≥ 2 bytes), so `room + bytes` bounds the number of passes
+  | .ok cnt n1 => dec64Aux (min cnt cap + bs.length + 2) (min cnt cap) (bs.drop n1)
   | _ => none
 
 /-- prefix sums modulo 2^w -/
